@@ -409,6 +409,8 @@ class _KInARow(Constraint):
 
     def sustain_within_block(self, sustain_count: int) -> None:
         self.within_block = self.within_block.sustain(sustain_count)
+        # `k` counts trials of the sustained block, so it scales, too
+        self.k *= sustain_count
  
     def uses_factor(self, f: Factor) -> bool:
         if isinstance(self.level, Factor):
@@ -635,7 +637,6 @@ class ExactlyK(_KInARow):
 
     def sustain_within_block(self, sustain_count: int) -> None:
         super().sustain_within_block(sustain_count)
-        self.k *= sustain_count
  
 
 class ExactlyKInARow(_KInARow):
